@@ -96,7 +96,7 @@ def run_z80(pid, tier, seed, owned, scen_args, rule, assumptions, shards_q=2, sh
             key = f"{'+'.join(sorted(mine))}:{enc}:{','.join(fields) if 'state' in mine else ''}"
             c0 = m[3][0]
             chk.classify(key, f"{m[2]}: {sorted(mine)} want {c0.get('want')} got {c0.get('got')} wantops {c0.get('wantops')}",
-                         [line_of(trace, m[1])], extra=m)
+                         lambda m=m, trace=trace: [line_of(trace, m[1])], extra=m)
     encs = set()
     with open(results[0][0]) as f:
         for line in f:
